@@ -27,9 +27,13 @@ impl<'a, A: ?Sized + AuthorityImpl> AuthorityMutImpl<'a, A> {
 		}
 	}
 
+	/// Replaces the given `range` of the authority with `content`, moving
+	/// the end of the authority accordingly.
 	#[inline]
 	fn replace(&mut self, range: Range<usize>, content: &[u8]) {
-		crate::utils::replace(self.data, range, content)
+		let range_len = range.end - range.start;
+		crate::utils::replace(self.data, range, content);
+		self.end = self.end + content.len() - range_len;
 	}
 
 	#[inline]
@@ -64,7 +68,6 @@ impl<'a, A: ?Sized + AuthorityImpl> AuthorityMutImpl<'a, A> {
 			None => {
 				if let Some(userinfo_range) = parse::find_user_info(bytes, self.start) {
 					self.replace(userinfo_range.start..(userinfo_range.end + 1), b"");
-					self.end -= userinfo_range.end - userinfo_range.start;
 				}
 			}
 		}
@@ -74,14 +77,6 @@ impl<'a, A: ?Sized + AuthorityImpl> AuthorityMutImpl<'a, A> {
 	pub fn set_host(&mut self, host: &A::Host) {
 		let bytes = &self.data[..self.end];
 		let range = parse::find_host(bytes, self.start);
-		let host_len = range.end - range.start;
-
-		if host_len > host.len() {
-			self.end -= host_len - host.len()
-		} else {
-			self.end -= host.len() - host_len
-		}
-
 		self.replace(range, host.as_bytes());
 	}
 
@@ -103,7 +98,6 @@ impl<'a, A: ?Sized + AuthorityImpl> AuthorityMutImpl<'a, A> {
 			None => {
 				if let Some(port_range) = parse::find_port(bytes, self.start) {
 					self.replace((port_range.start - 1)..port_range.end, b"");
-					self.end -= port_range.end - port_range.start;
 				}
 			}
 		}
